@@ -717,12 +717,20 @@ def rule_C(ctx):
         if need not in methods:
             raise anchor_error('ObsTime.%s not found' % need, CLS)
     import itertools
+    from .. import absint
+    fn_ = absint.funcs(ctx, MOD)
+    absint.classref(ctx, CLS, fn_)
+    proto = absint.instance(ctx, CLS, {}, fn_)
+
+    def Rec(fields, _methods):
+        o = absint.instance(ctx, CLS, fields, fn_)
+        return o
     total = 0
     CMP = [k for k in ('__lt__', '__gt__', '__le__', '__ge__', '__eq__', '__ne__') if k in methods]
     bad = {k: [] for k in CMP}
     for combo in itertools.product((0, 1, 2), repeat=len(FIELDS)):
-        a = orders.Obj({f: 1 for f in FIELDS}, methods)
-        b = orders.Obj({f: v for f, v in zip(FIELDS, combo)}, methods)
+        a = Rec({f: 1 for f in FIELDS}, methods)
+        b = Rec({f: v for f, v in zip(FIELDS, combo)}, methods)
         a.fields['zone'] = 0
         b.fields['zone'] = 0
         ta = tuple(a.fields[f] for f in FIELDS)
@@ -751,8 +759,8 @@ def rule_C(ctx):
             for f in FIELDS[i + 1:]:
                 fa_[f], fb_[f] = RANGES[f][1], RANGES[f][0]
             for x, y, lt in ((fa_, fb_, True), (fb_, fa_, False)):
-                a = orders.Obj(dict(x, zone=0), methods)
-                b = orders.Obj(dict(y, zone=0), methods)
+                a = Rec(dict(x, zone=0), methods)
+                b = Rec(dict(y, zone=0), methods)
                 want = {'__lt__': lt, '__gt__': not lt, '__le__': lt, '__ge__': not lt, '__eq__': False, '__ne__': True}
                 total += 1
                 for name in CMP:
@@ -867,6 +875,54 @@ def rule_Y(ctx):
     ctx.extra['C03.Y instants'] = n
 
 
+def rule_B(ctx):
+    """C03.A adding seconds / minutes / hours / days moves the instant by exactly that amount and gives a well-formed timestamp:
+    addSec/addMin/addHour/addDay interpreted on instants with and without milliseconds, integer and fractional amounts, with no
+    carry and with carries across the minute, hour, day, month, year and a leap day, forwards and backwards"""
+    import datetime
+    from .. import absint
+    fn = absint.funcs(ctx, MOD)
+    T = absint.classref(ctx, CLS, fn)
+    units = {'addSec': 1, 'addMin': 60, 'addHour': 3600, 'addDay': DAY}
+    base = datetime.datetime(1970, 1, 1)
+    starts = [(2021, 3, 15, 13, 21, 46, 0), (2021, 3, 15, 13, 21, 46, 250), (2020, 2, 28, 23, 59, 59, 0), (2019, 12, 31, 23, 59, 58, 500),
+              (2021, 1, 31, 23, 30, 0, 0), (2024, 2, 29, 0, 0, 0, 0), (1999, 12, 31, 0, 0, 30, 999)]
+    amounts = [0, 1, 5, 13, 14, 59, 60, 61, 0.5, 2.25, -1, -47, 24, 366]
+    for name, u in units.items():
+        f = ctx.prog.func(CLS + '.' + name)
+        bad = None
+        n = 0
+        for st in starts:
+            t0 = (datetime.datetime(*st[:6]) - base).total_seconds() + st[6] / 1000.0
+            for nb in amounts:
+                n += 1
+                try:
+                    r = T(*st).call(name, nb)
+                except orders.Unsupported as ex:
+                    raise shape_error('ObsTime.%s not interpretable: %s' % (name, ex), f.loc())
+                except (IndexError, KeyError, TypeError, ZeroDivisionError, ValueError, orders.Raised) as ex:
+                    r = '%s: %s' % (type(ex).__name__, ex)
+                want = t0 + nb * u
+                ok = isinstance(r, orders.Obj)
+                why = 'a timestamp is returned'
+                if ok:
+                    g = {k: r.fields.get(k) for k in FIELDS}
+                    ok = all(isinstance(v, (int, float)) for v in g.values())
+                    if ok:
+                        try:
+                            dt = datetime.datetime(int(g['year']), int(g['month']), int(g['day']), int(g['hour']), int(g['min']), int(g['sec']))
+                            got = (dt - base).total_seconds() + g['ms'] / 1000.0
+                            ok = 0 <= g['ms'] < 1000 and abs(got - want) <= 0.0011
+                            why = 'the instant moves by exactly nb x %d s (to the millisecond)' % u
+                        except ValueError:
+                            ok = False
+                            why = 'the result is a well-formed calendar timestamp'
+                if not ok and bad is None:
+                    bad = {'timestamp (y, m, d, h, min, s, ms)': list(st), 'call': '%s(%r)' % (name, nb), 'result': {k: r.fields.get(k) for k in FIELDS} if isinstance(r, orders.Obj) else r,
+                           'expected instant (s since 1970)': want, 'violated': why}
+        ctx.check(bad is None, 'C03.A', f, '%s(nb) moves the instant by nb x %d s and returns a well-formed timestamp (%d start/amount cases)' % (name, u, n), witness=bad, node=f.node, key=name)
+
+
 RULES = [
     ('C03.Y', rule_Y, 'quick'),
     ('C03.G', rule_G, 'quick', 'advisory'),
@@ -874,6 +930,6 @@ RULES = [
     ('C03.L', rule_L, 'quick'),
     ('C03.M', rule_M, 'quick'),
     ('C03.C', rule_C, 'quick'),
-    ('C03.A', rule_A, 'quick'),
+    ('C03.A', rule_B, 'quick'),
 ]
 MIN_OBLIGATIONS = 12
